@@ -272,6 +272,7 @@ ANOM15 = {20: 'connection %d was handed out although its mutex is poisoned',
           21: 'connection %d: marker and recycle_count disagree on whether it is new',
           22: 'has_broken / is_valid of connection %d was called on a thread that polls async code',
           23: 'get() failed', 24: 'an interaction ended differently than scripted', 25: 'timeout (%d)',
+          26: 'a connection was established on a thread that polls async code (%d)',
           9: 'label %d does not fit'}
 
 
@@ -295,7 +296,7 @@ def bad_flags(cfg, flags):
     """does the scripted backend state make the manager's check fail?"""
     mgr, method = cfg[0], cfg[2]
     if mgr == 1:
-        return flags & 3 != 0
+        return flags & 11 != 0      # 8: has_broken panics
     if mgr == 2:
         return (flags & 5 != 0) or (flags & 2 != 0 and method in (2, 3))   # 4: transaction manager in its error state
     return False
@@ -310,7 +311,7 @@ def monitor15(t, O, A):
     condemned = {}
     for i, (l, o, an) in enumerate(zip(t['labels'], O, A)):
         for a in an:
-            if a[0] in (20, 22, 23):
+            if a[0] in (20, 22, 23, 26):
                 return i, (ANOM15[a[0]] % a[1]) if '%' in ANOM15[a[0]] else ANOM15[a[0]]
         if o[3] > maxs:
             return i, 'status.size %d exceeds max_size %d' % (o[3], maxs)
@@ -399,6 +400,15 @@ def analyze15(traces, mobs_all, summ, harness_errs, hist):
             s['monitor_fails'].append(dict(trace=ti, step=mf[0], msg=mf[1]))
         elif t.get('err'):
             harness_errs.append((ti, t['err']))
+        # placement (C14): in the pools built on SyncWrapper, too, the backend's checks and the creation of
+        # a connection never run on a thread that polls async code
+        for i, an in enumerate(A):
+            bad = [a for a in an if a[0] in (22, 26)]
+            if bad:
+                a = bad[0]
+                summ['C14']['monitor_fails'].append(dict(trace=ti, step=i, msg='%s pool: %s' % (
+                    MGR[t['cfg'][0]], (ANOM15[a[0]] % a[1]) if '%' in ANOM15[a[0]] else ANOM15[a[0]])))
+                break
         for i, o in enumerate(O):
             m = mo[i] if i < len(mo) else None
             if m is None:
